@@ -584,6 +584,8 @@ static void runSystem(Ctx &ctx)
     so.algebraics = rng.range(0, 4);
     so.nla = rng.chance(0.3);
     so.nlaDense = true; // sparse / unguessed implicit systems are not analysable by this tree (C05 known findings)
+    so.nlaSystems = so.nla && rng.chance(0.4) ? 2 : 1;
+    so.nlaInterleave = so.nlaSystems == 2 && rng.chance(0.5);
     so.nlaGuess = true;
     so.scaledUnits = rng.chance(0.7);
     so.compoundUnits = so.scaledUnits && rng.chance(0.4);
